@@ -41,10 +41,16 @@ for k in sorted(os.listdir(out)):
         sh('git checkout -q -- . ; git clean -fdq -e _out -e target')
         os.makedirs(tdir, exist_ok=True)
         shutil.copy(os.path.join(d, 'demo.rs'), tpath)
-        mrun = re.search(r'run:\s*(.*)$', first)
+        mrun = re.search(r'run:\s*(.*)$', first) or \
+            re.search(r"()((?:[A-Z_]+='[^']*'\s+|[A-Z_]+=\S+\s+)*cargo test .*)$", first)
+        if mrun and mrun.lastindex == 2:
+            class _M:          # same interface as a match with group(1) = command
+                def __init__(self, c): self.c = c
+                def group(self, i): return self.c
+            mrun = _M(mrun.group(2))
         demo_cmd = 'cargo test --offline -p %s --test %s' % (pkg, tname)
         if mrun and ('RUSTFLAGS' in mrun.group(1) or '--features' in mrun.group(1)
-                     or '--no-default-features' in mrun.group(1)):
+                     or '--no-default-features' in mrun.group(1) or '--release' in mrun.group(1)):
             # configuration-specific demo (C19): keep the flags, substitute our test name
             demo_cmd = re.sub(r'--test\s+\S+', '--test ' + tname, mrun.group(1).strip())
             meta['demo_cmd'] = demo_cmd
